@@ -250,3 +250,68 @@ Definition rxn_compose_ord (o1 o2 o3 : list Z) (reactants reagents products : li
   compose_ord o1 o2 o3 (union_all (reagents ++ reactants)) (union_all products).
 Definition rxn_compose (reactants reagents products : list mol) : pyres cgr :=
   compose (union_all (reagents ++ reactants)) (union_all products).
+
+(* ---------- comparison after sorting by atom number (Python sets / set-ordered dicts) ---------- *)
+Fixpoint kinsert {V : Type} (x : Z * V) (l : list (Z * V)) : list (Z * V) :=
+  match l with [] => [x] | y :: r => if fst x <=? fst y then x :: y :: r else y :: kinsert x r end.
+Definition ksort {V : Type} (l : list (Z * V)) : list (Z * V) := fold_right kinsert [] l.
+Definition cgr_norm (h : cgr) : cgr :=
+  mkCgr (ksort (c_atoms h)) (ksort (map (fun nl => (fst nl, ksort (snd nl))) (c_adj h))).
+Definition zlsort (l : list Z) : list Z := map fst (ksort (map (fun x => (x, tt)) l)).
+(* dynamic atoms / bonds as sorted lists (what the ground-truth comparison of the harness uses) *)
+Definition dynamic_atoms (h : cgr) : list Z := zlsort (map fst (filter (fun na => datom_dynamic (snd na)) (c_atoms h))).
+Definition dynamic_bonds (h : cgr) : list (Z * Z) :=
+  flat_map (fun nl => map (fun mb => (fst nl, fst mb))
+                          (filter (fun mb => (fst nl <? fst mb) && dbond_dynamic (snd mb)) (ksort (snd nl))))
+           (ksort (c_adj h)).
+
+(* ---------- CGRSmiles tokens (chython/algorithms/smiles.py: dyn_order_str, dyn_charge_str, dyn_radical_str,
+   CGRSmiles._format_bond / _format_atom).  None = KeyError of the dict lookup ---------- *)
+From Coq Require Import String.
+Open Scope string_scope.
+Open Scope list_scope.
+Open Scope Z_scope.
+Definition order_sym (o : option Z) : option string :=
+  match o with
+  | None => Some "." | Some 1 => Some "-" | Some 2 => Some "=" | Some 3 => Some "#" | Some 4 => Some ":" | Some 8 => Some "~"
+  | _ => None
+  end.
+Definition dyn_order_str (o p : option Z) : option string :=
+  match o, p with
+  | None, None => None
+  | _, _ =>
+      match order_sym o, order_sym p with
+      | Some a, Some b =>
+          if option_eqb Z.eqb o p then Some (if option_eqb Z.eqb o (Some 1) then "" else a)
+          else Some ("[" ++ a ++ ">" ++ b ++ "]")%string
+      | _, _ => None
+      end
+  end.
+Definition charge_str (c : Z) : option string :=
+  match c with
+  | -4 => Some "-4" | -3 => Some "-3" | -2 => Some "-2" | -1 => Some "-" | 0 => Some "0"
+  | 1 => Some "+" | 2 => Some "+2" | 3 => Some "+3" | 4 => Some "+4" | _ => None
+  end.
+Definition dyn_charge_str (i j : Z) : option string :=
+  match charge_str i, charge_str j with
+  | Some a, Some b => if i =? j then Some (if i =? 0 then "" else a) else Some (a ++ ">" ++ b)%string
+  | _, _ => None
+  end.
+Definition dyn_radical_str (r pr : bool) : option string :=
+  match r, pr with
+  | true, true => Some "*" | true, false => Some "*>^" | false, true => Some "^>*" | false, false => None
+  end.
+(* CGRSmiles._format_bond *)
+Definition cgr_bond_str (b : dbond) : option string := dyn_order_str (db_ord b) (db_pord b).
+(* CGRSmiles._format_atom; symbol = atom.atomic_symbol, organic = symbol in organic_set, iso = str(isotope) *)
+Definition cgr_atom_str (symbol : string) (organic : bool) (iso : option string) (a : datom) : option string :=
+  let smi := match iso with Some s => [s; symbol] | None => [symbol] end in
+  let chg := if negb (d_chg a =? 0) || negb (d_pchg a =? 0) then option_map (fun x => [x]) (dyn_charge_str (d_chg a) (d_pchg a)) else Some [] in
+  let rad := if d_rad a || d_prad a then option_map (fun x => [x]) (dyn_radical_str (d_rad a) (d_prad a)) else Some [] in
+  match chg, rad with
+  | Some c, Some r =>
+      let smi := smi ++ c ++ r in
+      Some (if negb (Nat.eqb (List.length smi) 1) || negb organic then ("[" ++ String.concat "" smi ++ "]")%string
+            else String.concat "" smi)
+  | _, _ => None
+  end.
